@@ -33,7 +33,7 @@ pub fn check(c: &SrcCase, probe: &Probe) -> Verdict {
 pub fn case_strategy() -> BoxedStrategy<SrcCase> {
     let suffix = (0..HOSTS.len()).prop_map(|i| SUFFIXES.iter().position(|(s, _)| *s == HOSTS[i]).unwrap());
     (suffix, builder::events_strategy(builder::wild_tag_strategy(), 14), proptest::bool::weighted(0.1))
-        .prop_map(|(suffix, events, crlf)| SrcCase { suffix, events, crlf, echo: false, no_eol: false, bom: false, nul: false })
+        .prop_map(|(suffix, events, crlf)| SrcCase { suffix, events, crlf, echo: false, no_eol: false, bom: false, nul: false, far: false })
         .boxed()
 }
 
